@@ -34,7 +34,7 @@ func init() {
 		pkgPath:   "github.com/yandex/pandora/lib/mp",
 		module:    "C13Src",
 		namespace: "Pandora.Gen.C13Src",
-		imports:   []string{"Pandora.Model.C13Base", "Pandora.Model.C13Grpc"},
+		imports:   []string{"Pandora.Model.C13Base", "Pandora.Model.C13Grpc", "Pandora.Model.C13Run"},
 		extra:     c13srcExtra,
 	}
 }
@@ -74,7 +74,11 @@ func c13srcLoad(t *tr, path string) *packages.Package {
 			"github.com/yandex/pandora/components/providers/grpc/grpcjson",
 			"github.com/yandex/pandora/components/providers/http/provider",
 			"github.com/yandex/pandora/core/plugin/pluginconfig",
-			"github.com/yandex/pandora/components/providers/scenario/vs")
+			"github.com/yandex/pandora/components/providers/scenario/vs",
+			"github.com/yandex/pandora/components/providers/scenario/config",
+			"github.com/yandex/pandora/components/providers/scenario/http",
+			"github.com/yandex/pandora/components/providers/scenario/grpc",
+			"github.com/yandex/pandora/components/providers/scenario")
 		if err != nil {
 			t.errs = append(t.errs, "c13src: load: "+err.Error())
 		}
@@ -117,6 +121,9 @@ func c13srcFunc(p *packages.Package, recv, name string) *ast.FuncDecl {
 			ty := fd.Recv.List[0].Type
 			if st, ok := ty.(*ast.StarExpr); ok {
 				ty = st.X
+			}
+			if ix, ok := ty.(*ast.IndexExpr); ok { // generic receiver `Provider[A]`
+				ty = ix.X
 			}
 			if id, ok := ty.(*ast.Ident); ok && id.Name == recv {
 				return fd
@@ -883,5 +890,8 @@ func c13srcExtra(t *tr) string {
 	// ---------------------------------------------------------------- round 4: option handling (area_c13src_r4.go)
 	b.WriteString("\n")
 	b.WriteString(c13srcRound4(t))
+	// ---------------------------------------------------------------- round 6: caps, the end of Run (area_c13src_r6.go)
+	b.WriteString("\n")
+	b.WriteString(c13srcRound6(t))
 	return b.String()
 }
